@@ -66,6 +66,11 @@ CHECKS = {
          "Every script the grammar of tree expressions generates to depth 2 (all operators and functions, tree/number/number-on-the-left operands, unary minus, arrays in tree position) and, for 16 shapes covering each call-form class, the map form with every subset of defaulted fields omitted, the positional form in every argument order, tree-first, chained and two-tree forms, numeric spellings, vec2-to-vec3 promotion and reducers with 2..8 arguments or an array, is evaluated by the real engine and compared structurally with the tree built by the corresponding Rust calls; comparison operators on trees and unknown / missing fields must be errors.",
          "Trusted: the generator's pairing of script text with Rust calls; 16 of 26 shapes; depth 2.",
          "DESIGN.md §4 C17"),
+ "C18": ("model_checking",
+         "explicit-state BFS (stateright) over event histories; transitions call the real Canvas2/Canvas3 methods; obligations as always-properties",
+         "All histories of interact / begin_drag / drag / end_drag / zoom / resize events up to depth 3 (quick) / 4-5 (thorough) over small alphabets of screen positions (incl. off-canvas), scroll amounts and image sizes are explored breadth-first with state de-duplication on the bit pattern of the view, the image size and the shadow record of the active drag; each transition executes the real method and checks: zoom keeps the point under the cursor, an active pan keeps the grabbed point under the cursor, rotation leaves centre/scale bit-identical with pitch and yaw in range, changed==false for bit-identical views, world_to_model equals translate*rotate*scale.",
+         "Trusted: the state key (the opaque drag handle is a function of the recorded view and cursor at drag start); tolerance 1e-4 relative.",
+         "DESIGN.md §4 C18"),
  "C19": ("model_checking",
          "exhaustive enumeration of linear systems x fixed-parameter subsets x starts on the real solver (VM and JIT), vs. residual and key-set oracles",
          "Five matrix families with known integer solutions are solved for every number of unknowns (1..=40 thorough) with every subset of parameters fixed for n <= 6 (2^n, including all and none) and structured subsets above, from a start away from the solution and from the exact solution, on both backends; the result keys must be exactly the free parameters, the exact start must come back bit-for-bit, the residual (fixed parameters at their values) must be below 1e-3 relative, backends must agree, and nothing may panic.",
